@@ -3,34 +3,39 @@
 Clients interleaved by the scheduler on one long-lived environment: the agent (reset,
 step with a valid action, unstep of a previously stepped action, in any order), the
 four built-in solvers (next_step probes) and the fault injector (calls torn by a
-simulated KeyboardInterrupt, followed by reset as recovery).  Reference model: the list
+simulated KeyboardInterrupt, followed by reset as recovery; a hidden-game source that raises
+during reset; a second client's call overlapping the judged step in another thread).  Reference model: the list
 of hidden games the source produced, the set of currently revealed actions, a counter.
 """
 from __future__ import annotations
 
 import numpy as np
 
-from .. import em, games, seams
+from .. import em, games, seams, simthreads
 from .. import prelude
-from ..core import Sim
+from ..core import HarnessError, Sim, SimKill, Violation
 
 LEVEL = "exploration"
 RULE = ("Each run builds one environment (n = 3..5; computer x class-matched hidden-game source: harness SA/SAM "
         "constructions, registered families with a private generator, or ModelInstance.get_env with the registry "
         "entry recorded; gap function from the registry; budget None or k) and drives 8..40 interleaved client "
-        "calls (reset / step / unstep in any order / solver probes / torn calls followed by reset). After every "
+        "calls (reset / step / unstep in any order / solver probes / torn calls followed by reset / resets whose "
+        "hidden-game source raises / steps overlapped with a second client's call in another thread). After every "
         "returned call all clauses are evaluated against the reference model. Non-trivial = evaluated after a "
         "state change; distinct = distinct event-log digests.")
 STATE_MEASURE = "distinct (n, computer, set of revealed actions) at which all clauses were evaluated"
 REAL_VS_STUB = {"real": ["icg_gym.ICG_Gym", "normalize", "game", "bounds", "norms", "exploitability", "solvers.*",
                          "run.model.ModelInstance.get_env", "generators"], "stub": [],
                 "seams": ["interrupt injector", "recording wrapper around one GENERATORS registry entry",
-                          "hidden RNG streams set from the tape"]}
+                          "hidden RNG streams set from the tape", "hidden-game source that can be told to raise once",
+                          "line-granular thread interleaver (sim/simthreads.py)"]}
 ASSUMPTIONS = ["float-additive hidden games (surplus below 1e-6*scale, the C15 corner) are excluded from the "
                "independent-normalisation comparison only", "after a torn call the environment is only required to "
                "satisfy every clause again after reset()",
-               "reward <= rounding tolerance is demanded only for class-matched hidden games"]
-PROBES = ["second_client_interleaved", "env_pickled_mid_session", "done_by_budget", "done_by_degenerate_before_exhaustion", "done_by_exhaustion", "unstep_after_2_steps",
+               "reward <= rounding tolerance is demanded only for class-matched hidden games",
+               "after a reset that failed because the hidden-game source raised, the environment must satisfy every "
+               "clause either for the state before the call or for the freshly reset state of the same hidden game"]
+PROBES = ["reset_failed_in_the_source", "step_overlapped_with_other_clients_call", "second_client_interleaved", "env_pickled_mid_session", "done_by_budget", "done_by_degenerate_before_exhaustion", "done_by_exhaustion", "unstep_after_2_steps",
           "reset_after_torn_call", "solver_probe", "model_instance_env", "independent_normalisation_checked",
           "step_after_done", "unstep_out_of_order"]
 TIERS = {
@@ -55,8 +60,12 @@ class Recorder:
     def __init__(self, fn) -> None:
         self.fn = fn
         self.draws: list[np.ndarray] = []
+        self.fail_next: type | None = None
 
     def __call__(self, *a, **k):
+        if self.fail_next is not None:
+            exc, self.fail_next = self.fail_next, None
+            raise exc("injected: the hidden-game source failed")
         g = self.fn(*a, **k)
         self.draws.append(games.tabulate(g))
         return g
@@ -131,7 +140,7 @@ def _drive(sim: Sim, env, source, n, comp_name, gap, budget, matched, exact, SOL
         if other is not None and sim.flip(1, 3, "other-client-moves"):
             other.act(sim.pick(valid, "upcoming") if valid and sim.flip(1, 2, "lockstep") else None)
             sim.probe("second_client_interleaved")
-        kinds = [("reset", 2), ("probe", 2), ("torn", 1)]
+        kinds = [("reset", 2), ("probe", 2), ("torn", 1), ("failed-reset", 1)]
         if sim.flip(1, 20, "other-use"):
             prelude.warm_process(sim, label="midrun")
         if sim.flip(1, 14, "process-boundary"):
@@ -163,12 +172,54 @@ def _drive(sim: Sim, env, source, n, comp_name, gap, budget, matched, exact, SOL
             obs = np.array(ret[0], dtype=np.float64)
             if not np.array_equal(obs, np.array(env.state, dtype=np.float64)) or np.any(obs != 0):
                 sim.fail("C09.reset_observation_not_all_zero", {"n": n, "obs": obs.tolist()})
+        elif kind == "failed-reset":
+            # injected fault: the hidden-game source raises while reset() draws the next game.  The call may fail,
+            # but what it leaves behind must be a state the property describes: everything as before the call, or
+            # (an implementation that forgets first) the minimal information of the same hidden game - not a mixture.
+            exc = sim.pick([OSError, ImportError, MemoryError, KeyboardInterrupt], "source-fault")
+            source.fail_next = exc
+            sim.op("reset-with-failing-source", exc.__name__)
+            try:
+                env.reset()
+                failed = False
+            except BaseException as e:  # noqa: BLE001 - the injected fault (possibly wrapped by the package)
+                if isinstance(e, (Violation, HarnessError, SimKill)):
+                    raise
+                failed = True
+            if not failed:  # the environment coped (retried the source): an ordinary reset
+                source.fail_next = None
+                revealed, steps_taken = [], 0
+                hidden = source.current()
+                em.check_env(sim, env, n, comp_name, gap, hidden, revealed, steps_taken, budget, matched, exact, P)
+                continue
+            sim.fault("source_failed_during_reset")
+            sim.probe("reset_failed_in_the_source")
+            problems = []
+            for cand_revealed, cand_steps in ((revealed, steps_taken), ([], 0)):
+                try:
+                    em.check_env(sim, env, n, comp_name, gap, hidden, list(cand_revealed), cand_steps, budget, matched,
+                                 exact, P)
+                    revealed, steps_taken = list(cand_revealed), cand_steps
+                    break
+                except Violation as v:
+                    problems.append({"assumed": {"revealed": list(cand_revealed), "steps": cand_steps},
+                                     "clause": v.clause, "detail": v.detail})
+            else:
+                sim.fail("C09.failed_reset_left_neither_the_old_nor_a_reset_state", {"n": n, "problems": problems})
         elif kind == "step":
             a = sim.pick(valid, "action")
             was_done = bool(env.done)
             sim.op("step", a)
+            other_call = other.thunk(a if sim.flip(1, 2, "lockstep") else None) \
+                if other is not None and sim.flip(1, 3, "threads") else None
             with sim.guard("C09.step_raised"):
-                ret = env.step(a)
+                if other_call is not None:
+                    # the second client is a second caller thread: its call and the judged step overlap, pre-empted
+                    # between package lines as the tape says; the judged step must come out as if it ran alone
+                    ret = simthreads.interleave(sim, [lambda: env.step(a), other_call])[0]
+                    sim.probe("step_overlapped_with_other_clients_call")
+                else:
+                    ret = env.step(a)
             if was_done:
                 sim.probe("step_after_done")
             revealed.append(a)
